@@ -28,6 +28,10 @@ func straceChild(a []string) {
 	switch a[0] {
 	case "font":
 		_, err = font.InstallTrueTypeFontResult(a[1], a[2])
+	case "ttc":
+		_, err = font.InstallTrueTypeCollection(a[1], a[2])
+	case "ttcres":
+		_, err = font.InstallTrueTypeCollectionResults(a[1], a[2])
 	case "api":
 		font.UserFontDir = a[1]
 		err = api.InstallFonts([]string{a[2]})
@@ -199,7 +203,7 @@ func straceExec(F string, extra []string, child ...string) (*strun, error) {
 		case "write":
 			e := mev{op: "encode", p: q, q: q, res: res}
 			if !wrote[p] { // the whole representation is attributed to the first write
-				e.data = newTok(0x10)
+				e.data = tokFor(p)
 				wrote[p] = true
 			}
 			run.tr = append(run.tr, e)
@@ -215,31 +219,137 @@ func straceExec(F string, extra []string, child ...string) (*strun, error) {
 	return run, nil
 }
 
+// tokFor: the model token of the representation written to a temporary gob file (.n10….gob.tmp-123).
+func tokFor(p string) []byte {
+	b := strings.TrimPrefix(filepath.Base(p), ".")
+	if i := strings.Index(b, ".gob"); i >= 0 {
+		b = b[:i]
+	}
+	var v int
+	fmt.Sscanf(stripName(b), "%x", &v)
+	return newTok(v)
+}
+
 type straceScenario struct {
-	kind string // font | api
-	pre  bool
+	kind    string // font | api | ttc | ttcres
+	pre     bool
+	members []int // nil: a single .ttf with name 0x10; otherwise a synthetic .ttc with these members
+}
+
+func (sc straceScenario) names() []int {
+	if sc.members == nil {
+		return []int{0x10}
+	}
+	return sc.members
 }
 
 // setup makes a fresh font directory and input for one child run.
 func (sc straceScenario) setup() (base, F, in string) {
 	base = newBase()
 	F = filepath.Join(base, "1")
-	in = filepath.Join(base, "in.ttf")
-	wfile(in, patchedRoboto(fontName(0x10)), 0o644)
+	if sc.members == nil {
+		in = filepath.Join(base, "in.ttf")
+		wfile(in, patchedRoboto(fontName(0x10)), 0o644)
+	} else {
+		in = filepath.Join(base, "in.ttc")
+		var fonts [][]byte
+		for _, p := range sc.members {
+			fonts = append(fonts, patchedRoboto(fontName(p)))
+		}
+		wfile(in, buildTTC(fonts), 0o644)
+	}
 	if sc.pre {
-		wfile(filepath.Join(F, fontName(0x10)+".gob"), oldTok(0x10), 0o644)
+		for _, p := range sc.names() {
+			wfile(filepath.Join(F, fontName(p)+".gob"), oldTok(p), 0o644)
+		}
 	}
 	return
 }
 
-func (sc straceScenario) listing() (init map[string]map[string][]byte, old map[string][]byte) {
+func (sc straceScenario) listing() (init map[string]map[string][]byte, old, newRep map[string][]byte, installed []string) {
 	init = map[string]map[string][]byte{"1": {}}
 	old = map[string][]byte{}
-	if sc.pre {
-		init["1"]["10"] = oldTok(0x10)
-		old["10"] = oldTok(0x10)
+	newRep = map[string][]byte{}
+	for _, p := range sc.names() {
+		n := fmt.Sprintf("%x", p)
+		newRep[n] = newTok(p)
+		installed = append(installed, n)
+		if sc.pre {
+			init["1"][n] = oldTok(p)
+			old[n] = oldTok(p)
+		}
 	}
 	return
+}
+
+// memberShape: the calls on the file that ends up as F/<name>, followed backwards through its renames to its
+// createTemp; a rename is followed by "syncdir" when the directory it moved the file into is fsync'ed before the
+// file moves again (same definition as `shape` in ocaml/C07_glue.ml).
+func memberShape(tr []mev, target mpath) string {
+	cur := target
+	seen := map[string]bool{}
+	var out []string
+	push := func(s ...string) { out = append(append([]string(nil), s...), out...) }
+loop:
+	for i := len(tr) - 1; i >= 0; i-- {
+		e := tr[i]
+		if e.res != "ok" {
+			continue
+		}
+		switch {
+		case e.op == "syncdir":
+			seen[e.p.dir] = true
+		case e.op == "rename" && e.q == cur:
+			if seen[e.q.dir] {
+				push("rename", "syncdir")
+			} else {
+				push("rename")
+			}
+			cur = e.p
+			seen = map[string]bool{}
+		case e.p != cur:
+		case e.op == "createtemp":
+			push("createtemp")
+			break loop
+		case e.op == "encode":
+			if len(out) == 0 || out[0] != "encode" {
+				push("encode")
+			}
+		case e.op == "chmod" || e.op == "sync":
+			push(e.op)
+		}
+	}
+	return strings.Join(out, " ")
+}
+
+// shapeCases: K on the per-member syscall shape.
+func (sc straceScenario) shapeCases(r *vh.Run, tr []mev) {
+	tree := "1="
+	if sc.pre {
+		var l []string
+		for _, p := range sc.names() {
+			l = append(l, fmt.Sprintf("%x:1a4:%x", p, oldTok(p)))
+		}
+		tree += strings.Join(l, ",")
+	}
+	var ms []string
+	for _, p := range sc.names() {
+		ms = append(ms, fmt.Sprintf("v:%x:%x:%x", p, p, newTok(p)))
+	}
+	for _, p := range sc.names() {
+		n := fmt.Sprintf("%x", p)
+		got := memberShape(tr, mpath{"1", n})
+		if sc.kind == "ttc" || sc.kind == "ttcres" {
+			// the whole life of the member against the collection model
+			r.Case("shape", []string{"collection", "ff", tree, "1", strings.Join(ms, ","), n}, got)
+			continue
+		}
+		// font / api: the per-file protocol (up to the first directory fsync) against the writeGob model
+		if i := strings.Index(got, "syncdir"); i >= 0 {
+			got = got[:i+len("syncdir")]
+		}
+		r.Case("shape", []string{"gob", "ff", "1=", "1", n, fmt.Sprintf("%x", newTok(p))}, got)
+	}
 }
 
 // modelCase: the C06 program model with a failing fsync_dir step at the same place.
@@ -286,11 +396,15 @@ func straceC07(r *vh.Run) {
 	if !haveStrace(r) {
 		return
 	}
-	scs := []straceScenario{{"font", false}, {"font", true}, {"api", false}}
+	scs := []straceScenario{{"font", false, nil}, {"font", true, nil}, {"api", false, nil}}
 	if r.Thorough() {
-		scs = append(scs, straceScenario{"api", true})
+		scs = append(scs, straceScenario{"api", true, nil})
 	}
-	newRep := map[string][]byte{"10": newTok(0x10)}
+	scs = append(scs, straceScenario{"ttc", false, []int{0x10, 0x11}}, straceScenario{"ttcres", true, []int{0x10, 0x11}},
+		straceScenario{"api", false, []int{0x10, 0x11}})
+	if r.Thorough() {
+		scs = append(scs, straceScenario{"ttc", true, []int{0x10, 0x11, 0x12}}, straceScenario{"ttcres", false, []int{0x10}})
+	}
 	for _, sc := range scs {
 		// recording pass
 		_, F, in := sc.setup()
@@ -307,11 +421,15 @@ func straceC07(r *vh.Run) {
 			}
 		}
 		r.Sample(map[string]any{"strace_syscall_order_" + sc.kind: strings.Join(kinds, " ")})
-		init, old := sc.listing()
-		judge(r, "strace-"+sc.kind, map[string]any{"pre": sc.pre}, rec.tr, init, old, newRep, true, []string{"10"})
+		init, old, newRep, installed := sc.listing()
+		judge(r, "strace-"+sc.kind, map[string]any{"pre": sc.pre, "members": sc.names()}, rec.tr, init, old, newRep, true, installed)
+		sc.shapeCases(r, rec.tr)
+		r.Count("class:strace-record")
+		if sc.members != nil {
+			continue // collections: recording pass only
+		}
 		fn, args := sc.modelCase(false)
 		r.Case(fn, args, "e0")
-		r.Count("class:strace-record")
 		tgt, ok := injectTarget(rec, F)
 		if !ok {
 			r.OracleFail("c07:strace-"+sc.kind+":no-directory-fsync-after-publication", map[string]any{"scenario": fmt.Sprint(sc)},
@@ -346,9 +464,9 @@ func straceC07(r *vh.Run) {
 			}
 			continue
 		}
-		init, old = sc.listing()
+		init, old, newRep, installed = sc.listing()
 		judge(r, "strace-inject-"+sc.kind, map[string]any{"pre": sc.pre, "failed_fsync": "font directory, after the publishing rename"},
-			inj.tr, init, old, newRep, inj.exit == 0, []string{"10"})
+			inj.tr, init, old, newRep, inj.exit == 0, installed)
 		fn, args = sc.modelCase(true)
 		r.Case(fn, args, "e"+b01(inj.exit != 0))
 		r.Count("class:strace-inject")
@@ -385,7 +503,7 @@ func straceC06(r *vh.Run) {
 	if !haveStrace(r) {
 		return
 	}
-	for _, sc := range []straceScenario{{"api", false}, {"api", true}, {"font", true}} {
+	for _, sc := range []straceScenario{{"api", false, nil}, {"api", true, nil}, {"font", true, nil}} {
 		_, F, in := sc.setup()
 		rec, err := straceExec(F, nil, sc.kind, F, in)
 		if err != nil || rec.exit != 0 {
